@@ -11,3 +11,31 @@ pub fn random_state_new() -> RandomState {
 }
 pub fn hasher_write(_h: &mut DefaultHasher, _bytes: &[u8]) {}
 pub fn hasher_finish(_h: &DefaultHasher) -> u64 { 0 }
+
+// ---------------------------------------------------------------------------------------------
+// Allocator model (DESIGN.md §4.6). `std::alloc::{alloc, alloc_zeroed, realloc, dealloc}` are
+// replaced by an allocator that hands out blocks of at least SLACK bytes and therefore grows a
+// small block in place. The contract of the global allocator is kept (fresh, disjoint blocks;
+// `realloc` preserves the common prefix); what is cut is CBMC's byte-wise copy of a block whose
+// size is symbolic, which dominates symbolic execution wherever a `Vec`/`JavaString` is pushed
+// to in a loop. Not modelled: allocation failure, alignment, and out-of-bounds accesses that stay
+// inside the slack of a small block (no memory-safety claim is made by any check).
+// ---------------------------------------------------------------------------------------------
+use std::alloc::Layout;
+extern "C" {
+	fn malloc(size: usize) -> *mut u8;
+	fn calloc(n: usize, size: usize) -> *mut u8;
+	fn free(ptr: *mut u8);
+}
+pub const SLACK: usize = 64;
+pub unsafe fn alloc_stub(layout: Layout) -> *mut u8 { if layout.size() <= SLACK { malloc(SLACK) } else { malloc(layout.size()) } }
+pub unsafe fn alloc_zeroed_stub(layout: Layout) -> *mut u8 { if layout.size() <= SLACK { calloc(SLACK, 1) } else { calloc(layout.size(), 1) } }
+pub unsafe fn dealloc_stub(ptr: *mut u8, _layout: Layout) { free(ptr) }
+pub unsafe fn realloc_stub(ptr: *mut u8, layout: Layout, new_size: usize) -> *mut u8 {
+	if new_size <= SLACK && layout.size() <= SLACK { return ptr; }
+	let p = if new_size <= SLACK { malloc(SLACK) } else { malloc(new_size) };
+	let n = if layout.size() < new_size { layout.size() } else { new_size };
+	core::ptr::copy_nonoverlapping(ptr, p, n);
+	free(ptr);
+	p
+}
